@@ -659,6 +659,13 @@ def rand_spec(rng, linear=False, infeasible=None):
                 v[1] = -2.0
             if v[2] is None:
                 v[2] = v[1] + 4.0
+    if rng.random() < 0.2:
+        # a row whose variable coefficients cancel: it reads `0 sense rhs`
+        j = rng.randrange(n)
+        lhs = [[1.0, [[j, 1]]], [-1.0, [[j, 1]]]]
+        if n >= 2 and rng.random() < 0.5:
+            lhs = [[2.0, [[0, 1]]], [1.0, [[1, 1]]], [-1.0, [[1, 1]]], [-2.0, [[0, 1]]]]
+        cons.append([lhs, rng.choice(["<=", ">=", "=="]), rng.choice([-1.0, 0.0, 0.0, 1.0])])
     if infeasible == "cons":
         cons += [[[[1.0, [[0, 1]]]], ">=", 1.0], [[[1.0, [[0, 1]]]], "<=", 0.0]]
     elif infeasible == "bound":
@@ -709,6 +716,77 @@ def check_feasible(spec, method, P, sol):
     if sol.status.name != "OPTIMAL":
         return None
     return feasibility_report(P, sol.values, None, slack=1e-7 if method in LP_METHODS or method == "auto" else 1e-9)
+
+
+# ----------------------------------------------------------------------------- degenerate LP rows
+
+
+def degenerate_case(form, sense, rhs, method, objsense="min", extra=False):
+    """an LP with one constraint row whose variable coefficients cancel (`x - x`, `x + y - y - x`,
+    `zeros @ v`, `0 * x`): the row reads `0 sense rhs`, so the problem is infeasible exactly when that
+    is false — whatever the extractor does with the row, an OPTIMAL answer must satisfy it"""
+    from optyx import Problem, Variable, VectorVariable
+
+    x = Variable("x", lb=0.0, ub=4.0)
+    y = Variable("y", lb=-1.0, ub=3.0)
+    v = VectorVariable("v", 3, lb=0.0, ub=2.0)
+    lhs = {"x-x": lambda: x - x,
+           "x+y-y-x": lambda: x + y - y - x,
+           "zeros@v": lambda: np.zeros(3) @ v,
+           "0*x": lambda: 0.0 * x,
+           "2x-x-x+1-1": lambda: 2.0 * x - x - x + 1.0 - 1.0,
+           "v-sum-cancel": lambda: v.sum() - v[0] - v[1] - v[2]}[form]()
+    c = lhs <= rhs if sense == "<=" else lhs >= rhs if sense == ">=" else lhs.eq(rhs)
+    obj = x + 2.0 * y + v.sum() + 1.5
+    P = Problem()
+    P.minimize(obj) if objsense == "min" else P.maximize(obj)
+    P.subject_to(c)
+    if extra:
+        P.subject_to(x + y >= 0.5)
+        P.subject_to((x - y).eq(1.0))
+    return P
+
+
+DEGENERATE_FORMS = ["x-x", "x+y-y-x", "zeros@v", "0*x", "2x-x-x+1-1", "v-sum-cancel"]
+
+
+def run_degenerate_rows(rep, thorough=False):
+    n = 0
+    for form in DEGENERATE_FORMS:
+        for sense in ("<=", ">=", "=="):
+            for rhs in (-1.0, 0.0, 1.0, 2.0, 3.0):
+                for method in ["auto"] + LP_METHODS:
+                    for objsense, extra in (("min", False), ("max", True)) if not thorough else (
+                            ("min", False), ("max", True), ("min", True), ("max", False)):
+                        case = {"form": form, "sense": sense, "rhs": rhs, "method": method, "objsense": objsense,
+                                "extra": extra}
+                        bad, status = degenerate_check(case)
+                        n += 1
+                        truth = (0.0 <= rhs) if sense == "<=" else (0.0 >= rhs) if sense == ">=" else (rhs == 0.0)
+                        tag = f"degenerate:{'row-holds' if truth else 'row-fails'}:{status}"
+                        rep.histogram[tag] = rep.histogram.get(tag, 0) + 1
+                        if status == "OPTIMAL":
+                            rep.nontrivial.add(hash(("deg", form, sense, rhs, method, objsense, extra)))
+                        if bad is not None:
+                            bad.update({"kind_of_case": "degenerate", "case": case})
+                            rep.oracle_failures.append(bad)
+    rep.evaluations += n
+
+
+def degenerate_check(case):
+    P = degenerate_case(case["form"], case["sense"], case["rhs"], case["method"], case["objsense"], case["extra"])
+    with warnings.catch_warnings(), np.errstate(all="ignore"):
+        warnings.simplefilter("ignore")
+        try:
+            sol = P.solve(method=case["method"])
+        except Exception as e:  # noqa: BLE001
+            return None, "raise:" + type(e).__name__
+    if sol.status.name != "OPTIMAL":
+        return None, sol.status.name
+    bad = feasibility_report(P, sol.values, None, slack=1e-7)
+    if bad is not None:
+        bad["values"] = dict(sol.values)
+    return bad, "OPTIMAL"
 
 
 # ----------------------------------------------------------------------------- entry points
@@ -792,6 +870,7 @@ def run(ctx) -> core.Report:
             rep.oracle_failures.append({"what": "LP status OPTIMAL although linprog did not report success",
                                         "kind_of_case": "lpstub", "case": meta})
     rep.exhaustive = True
+    run_degenerate_rows(rep, thorough)
     run_real_solves(rep, rng, 1500 if thorough else 150, check_feasible)
     return rep
 
@@ -803,6 +882,9 @@ def search(ctx, rep):
     r2 = core.Report()
     metas = run_stub_table(r2, rng, True)
     stub_oracle(r2, metas)
+    if r2.oracle_failures:
+        return r2.oracle_failures[0]
+    run_degenerate_rows(r2, True)
     if r2.oracle_failures:
         return r2.oracle_failures[0]
     run_real_solves(r2, rng, 1200, check_feasible)
@@ -830,6 +912,10 @@ def replay(payload) -> bool:
             return True
         bad = feasibility_report(P, sol.values, c["tol"])
         print("feasibility:", bad)
+        return bad is None
+    if f.get("kind_of_case") == "degenerate":
+        bad, status = degenerate_check(f["case"])
+        print("status:", status, "feasibility:", bad)
         return bad is None
     if f.get("kind_of_case") == "lpstub":
         c = f["case"]
